@@ -47,6 +47,24 @@ fn decode_find(src: &mut Source, which: Which) -> Box<dyn Case> {
             let t = if src.chance(1, 2) { s } else { format!("{} {}", gen_random_word(src, w.lang, false), s) };
             w.recs.push((id, t, gen_rating(src)));
         }
+        // title words one edit away from a function word of the language: the typo then SPELLS a
+        // function word (white -> while); deletions and transpositions are enumerated exhaustively,
+        // so a word made by inserting a letter into f, or by swapping two letters of f, reaches f
+        let fs: Vec<&&str> = crate::tables::func_words(w.lang).iter().filter(|f| f.chars().count() >= 4).collect();
+        if !fs.is_empty() && src.chance(1, 2) {
+            let f: Vec<char> = src.pick(&fs).chars().collect();
+            let mut v = f.clone();
+            if src.chance(1, 2) {
+                let i = src.below(v.len() + 1);
+                let plain = plain_letters(w.lang);
+                v.insert(i, *src.pick(&plain));
+            } else {
+                let i = src.below(v.len() - 1);
+                v.swap(i, i + 1);
+            }
+            let id = w.recs.len() + 1;
+            w.recs.push((id, v.into_iter().collect(), gen_rating(src)));
+        }
         w.limit = w.limit.max(w.recs.len());
     }
     let picks = (0..48).map(|_| src.below(1 << 16) as u16).collect();
@@ -191,6 +209,9 @@ impl FindCase {
                     ctx.label_if(pos == 0, "edit-at-first");
                     ctx.label_if(pos + 1 >= wc.len(), "edit-at-last");
                     ctx.label_if(wc.len() <= 7, "word-len-5-7");
+                    if crate::tables::func_words(w.lang).iter().any(|f| f.chars().eq(e.iter().cloned())) {
+                        ctx.label("typo-spells-function-word");
+                    }
                 }
             }
         }
